@@ -3,13 +3,16 @@ import TexcraftModel.Model.C20
 import TexcraftModel.Model.C20Kmp
 import TexcraftModel.Model.C20Interner
 import TexcraftModel.Model.C20Tags
+import TexcraftModel.Model.C20Backing
+import TexcraftModel.Model.C20TagsFine
 
 /-! Driver for C20. Requests (all integers):
 
 * `gm <nkeys> <split> <n> <ops>` one history. Op = `0 k v` local insert, `1 k v` global insert,
   `2` begin_group, `3` end_group. After every op every key `0..nkeys-1` is read.
-  Reply `M | S | IT | RB`: model trace, spec trace, canonical `iter_all` of the model state after
-  `split` ops, trace of the map rebuilt from it under the remaining ops (or `panic`).
+  Reply `M | S | IT | RB | MV | ITV`: model trace, spec trace, canonical `iter_all` of the model state after
+  `split` ops, trace of the map rebuilt from it under the remaining ops (or `panic`); `MV`, `ITV` = trace and
+  `iter_all` of the generic container code over the Vec backing (`BMap (vecBacking Nat)`).
   Trace per op: out code (0/1 insert result, 2 unit, 3 err) then `nkeys` reads (`0` none, `v+1`),
   then `len()` and an order-independent code of `iter()`. Op `4 k v` = `extend([(k, v)])`.
 * `gx <depth> <split> <n> <prefix op indices>` exhaustive: every extension of the prefix to
@@ -19,6 +22,7 @@ import TexcraftModel.Model.C20Tags
 * `kx <depth> <alphabet> <patlen> <pat>` exhaustive over all texts of length `depth`:
   `modelDigest specDigest leaves`.
 * `in <nstr> (<len> <bytes>)*` → `Kconst | Kmod | Kspec | resolve=<0/1> | rebuild=<0/1>`.
+* `tf <n0> <T> <N> <seed>` → the instruction-level machine (`lockProg`) under a pseudo-random scheduler.
 * `tg <n0> <T> <N>` → model tags of the round-robin schedule from counter `n0`; `tgchk <tags>` →
   `distinct=<0/1>`; `st <n0> <T>` → the single value every `get` returns.
 -/
@@ -89,6 +93,20 @@ def sStep (nkeys : Nat) (s : S) (d : DOp) : S × List Nat :=
   (r.1, (if d.ext then 2 else outCode r.2) :: (List.range nkeys).map (fun k => encOpt (r.1.cur k))
         ++ [vis.length, vis.foldl (· + ·) 0])
 
+/-- The same step on the generic container code over a backing (`Model/C20Backing.lean`). -/
+def bStep {bk : Backing Nat Nat} (nkeys : Nat) (m : BMap bk) (d : DOp) : BMap bk × List Nat :=
+  let r := m.step d.op
+  let len := if r.1.isEmpty == (r.1.len == 0) then r.1.len else 999999
+  (r.1, (if d.ext then 2 else outCode r.2) :: (List.range nkeys).map (fun k => encOpt (r.1.get k))
+        ++ [len, (r.1.iter.map fun (k, v) => pairCode k v).foldl (· + ·) 0])
+
+def bTrace {bk : Backing Nat Nat} (nkeys : Nat) : BMap bk → List DOp → BMap bk × List Nat
+  | m, [] => (m, [])
+  | m, op :: ops =>
+    let r := bStep nkeys m op
+    let rs := bTrace nkeys r.1 ops
+    (rs.1, r.2 ++ rs.2)
+
 def mTrace (nkeys : Nat) : M → List DOp → M × List Nat
   | m, [] => (m, [])
   | m, op :: ops =>
@@ -143,7 +161,14 @@ def handleGm (nkeys split : Nat) (ops : List DOp) : String :=
     | .ok items => showRes (.ok (canonItems items))
     | .panic => "panic"
     | .fuel => "fuel"
-  s!"{showNatsD mt} | {showNatsD st} | {itS} | {rb}"
+  -- the generic container code over the Vec backing: trace, `iter_all` at the split
+  let vt := (bTrace nkeys (BMap.empty : BMap (vecBacking Nat)) ops).2
+  let vsplit := (bTrace nkeys (BMap.empty : BMap (vecBacking Nat)) (ops.take split)).1
+  let vit := match vsplit.iterAll with
+    | .ok items => showRes (.ok (canonItems items))
+    | .panic => "panic"
+    | .fuel => "fuel"
+  s!"{showNatsD mt} | {showNatsD st} | {itS} | {rb} | {showNatsD vt} | {vit}"
 
 /-- The 10-letter alphabet of the exhaustive scope. -/
 def alphaOp (i : Nat) : DOp :=
@@ -323,6 +348,24 @@ def handleTg (n0 T N : Nat) : String :=
   let panics := (r.2.filter (fun p => p.2.isNone)).length
   s!"count={tags.length} min={tags.foldl min (tags.headD 0)} max={tags.foldl max 0} panics={panics}"
 
+/-- The instruction-level machine (`Model/C20TagsFine.lean`) under a pseudo-random scheduler that
+stops scheduling a thread once it has completed `N` calls. The scheduler is not part of the model
+(the theorem is about every schedule). -/
+def fineLoop (T N : Nat) : Nat → Nat → TagsFine.St → TagsFine.St
+  | 0, _, s => s
+  | fuel + 1, rng, s =>
+    if s.out.length ≥ T * N && s.owner.isNone then s else
+    let i := (rng / 65536) % T
+    let rng' := (rng * 1103515245 + 12345) % 2147483648
+    let doneI := ((s.out.filter (·.1 == i)).length ≥ N) && ((s.th i).pc == 0)
+    if doneI then fineLoop T N fuel rng' s
+    else fineLoop T N fuel rng' (TagsFine.step TagsFine.lockProg s i)
+
+def handleTf (n0 T N seed : Nat) : String :=
+  let s := fineLoop T N (200 * T * T * N + 1000) (seed + 1) { TagsFine.init with counter := n0 }
+  let tags := TagsFine.tags s
+  s!"count={tags.length} min={tags.foldl min (tags.headD 0)} max={tags.foldl max 0} panics=0"
+
 def nodupNat : List Nat → Bool
   | [] => true
   | x :: t => !t.contains x && nodupNat t
@@ -370,6 +413,10 @@ def handle (line : String) : String :=
   | "tg" :: ws =>
     match nats? ws with
     | some [n0, t, n] => handleTg n0 t n
+    | _ => "bad-request"
+  | "tf" :: ws =>
+    match nats? ws with
+    | some [n0, t, n, seed] => handleTf n0 t n seed
     | _ => "bad-request"
   | "tgchk" :: ws =>
     match nats? ws with
